@@ -61,7 +61,7 @@ def run(module, cfg=None, workers=1, env=None, timeout=3600, simulate=None, dept
     if own:
         wd = workdir("tlc-%d-%d" % (os.getpid(), int(time.time() * 1e6) % 10**9))
     meta = os.path.join(wd, "meta-%s-%d" % (os.path.basename(mpath), int(time.time() * 1e6) % 10**9))
-    cmd = ["java", "-XX:+UseParallelGC", "-Xmx" + heap, "-DTLA-Library=" + LIBPATH, "-cp", CP, "tlc2.TLC",
+    cmd = ["java", "-XX:+UseParallelGC", "-Xss256m", "-Xmx" + heap, "-DTLA-Library=" + LIBPATH, "-cp", CP, "tlc2.TLC",
            "-workers", str(workers), "-metadir", meta, "-noGenerateSpecTE", "-config", cfg]
     if simulate is not None:
         cmd += ["-simulate", simulate]
@@ -117,7 +117,7 @@ def run(module, cfg=None, workers=1, env=None, timeout=3600, simulate=None, dept
         if not expect_violation and own:
             pass
     elif not ok_end:
-        tail = "\n".join(l for l in p.stdout.splitlines() if not re.match(r"^(Parsing|Semantic|Linting)", l))[-3000:]
+        tail = "\n".join(l for l in p.stdout.splitlines() if not re.match(r"^(Parsing|Semantic|Linting|\"[{\[])", l))[-3000:]
         raise MachineryFailure("TLC failed on %s (exit %s):\n%s" % (module, p.returncode, tail))
     shutil.rmtree(meta, ignore_errors=True)
     if own:
@@ -174,3 +174,18 @@ def sany(path):
                        cwd=os.path.dirname(path))
     ok = p.returncode == 0 and "Semantic errors" not in p.stdout and "*** Errors" not in p.stdout and "Fatal" not in p.stdout
     return ok, p.stdout
+
+
+def evaluate(exprs, extends, timeout=300):
+    """Evaluate constant TLA+ expressions (debug/selftest helper): returns TLC's printed lines."""
+    wd = workdir("eval-%d" % os.getpid())
+    body = "\n".join("ASSUME PrintT(<<\"EV\", %d, %s>>)" % (i, e) for i, e in enumerate(exprs))
+    with open(os.path.join(wd, "Ev.tla"), "w") as f:
+        f.write("---- MODULE Ev ----\nEXTENDS %s, TLC\n%s\n====\n" % (extends, body))
+    with open(os.path.join(wd, "Ev.cfg"), "w") as f:
+        f.write("")
+    cmd = ["java", "-Xss64m", "-DTLA-Library=" + LIBPATH, "-cp", CP, "tlc2.TLC", "-metadir", os.path.join(wd, "m"),
+           "-noGenerateSpecTE", "-config", os.path.join(wd, "Ev.cfg"), os.path.join(wd, "Ev.tla")]
+    p = subprocess.run(cmd, cwd=wd, stdout=subprocess.PIPE, stderr=subprocess.STDOUT, universal_newlines=True, timeout=timeout)
+    shutil.rmtree(wd, ignore_errors=True)
+    return "\n".join(l for l in p.stdout.splitlines() if not re.match(r"^(Parsing|Semantic|Linting|TLC2|Running|Starting|Finished|Computing)", l))
